@@ -107,6 +107,9 @@ func (fr *FnRun) instr(st *State, in ssa.Instruction, depth int) {
 		p := fr.ptr(st, x.Addr)
 		fr.oblige(st, "nil", fr.ordOf(in), Not(p.Nil), nil, "store through pointer "+x.Addr.Name())
 		st.assume(Not(p.Nil))
+		if p.ViewOf != nil {
+			panic(abortf("store of a single byte through a byte view"))
+		}
 		ex.store(st, p, fr.value(st, x.Val))
 	case *ssa.MakeSlice:
 		l := fr.term(st, x.Len)
@@ -218,6 +221,9 @@ func (fr *FnRun) unop(st *State, x *ssa.UnOp) Val {
 		p := fr.ptr(st, x.X)
 		fr.oblige(st, "nil", fr.ordOf(x), Not(p.Nil), nil, "load through pointer "+x.X.Name())
 		st.assume(Not(p.Nil))
+		if p.ViewOf != nil {
+			return fr.viewByte(st, p.ViewOf, p.ViewIdx)
+		}
 		v := ex.load(st, p)
 		// unsafe reinterpretation of slice headers (byte views)
 		if sv, ok := v.(*SliceV); ok && isSliceHeaderStruct(p.Elem) {
@@ -816,7 +822,8 @@ func (fr *FnRun) indexAddr(st *State, x *ssa.IndexAddr) {
 		fr.oblige(st, "bounds", fr.ordOf(x), in, nil, "slice index in range")
 		st.assume(in)
 		if v.ViewW > 0 {
-			panic(abortf("element address into a byte view"))
+			st.vals[x] = &PtrV{Nil: tFalse, Obj: v.Arr, Elem: v.Elem, ViewOf: v, ViewIdx: idx}
+			return
 		}
 		st.vals[x] = &PtrV{Nil: tFalse, Obj: v.Arr, Path: appendPath(v.Base, PathElem{Idx: Add(v.Off, idx)}), Elem: v.Elem}
 	case *PtrV:
